@@ -9,16 +9,19 @@ import (
 
 func validateMaps(env *Environment, errorSink *validation.ErrorSink) *Environment {
 	Visit(env, func(self Visitor, node Node) {
+		// maps can be nested in the key or value type of a map
+		defer self.VisitChildren(node)
+
 		m, ok := node.(*Map)
 		if !ok {
-			self.VisitChildren(node)
 			return
 		}
 
 		t := GetUnderlyingType(m.KeyType)
 		if st, ok := t.(*SimpleType); ok {
 			switch st.ResolvedDefinition.(type) {
-			case nil, PrimitiveDefinition:
+			case nil, PrimitiveDefinition, *GenericTypeParameter:
+				// unresolved (already reported), primitive, or only known once the generic type is used
 				return
 			}
 		}
